@@ -69,6 +69,8 @@ std::vector<BlockImage> sa_snapshot();
 // the client's own allocations (handles given to the library, buffers it gets back)
 void* sa_client_malloc(size_t n);
 void sa_client_free(void* p);
+static const int SA_ARENA_HUGE = -7;
+void* sa_client_map_huge(size_t n);   // address space only (MAP_NORESERVE), registered as a live client block; nullptr when the mapping is refused. No snapshot while it lives!
 
 // arena control (C18)
 void sa_set_arena(int idx);          // which arena new blocks come from (0 or 1)
